@@ -1,6 +1,7 @@
 package tmmirror_test
 
 import (
+	"os"
 	"bytes"
 	"context"
 	"crypto/ed25519"
@@ -457,25 +458,40 @@ func (s *sim) rememberPH(b builtPH) {
 
 // phTrigger evaluates the trigger predicates of the known crash / livelock
 // findings for a proposed header against the position observed before the op.
-func (s *sim) phTrigger(b builtPH) string {
+func (s *sim) phTrigger(b builtPH) string { return pickOpen(s.phTriggers(b)) }
+
+func (s *sim) phTriggers(b builtPH) (out []string) {
 	h, r := b.H, b.PH.Round
 	if b.PH.ProposerPubKey == nil {
-		return ""
+		return nil
 	}
 	if h == s.cv.Height && r > s.cv.Round {
-		return "C09-A1"
+		out = append(out, "C09-A1")
 	}
 	if h == s.vv.Height && r > s.vv.Round+1 {
-		return "C09-A2"
+		out = append(out, "C09-A2")
+	}
+	if s.inConc && h == s.vv.Height+2 && b.PH.Header.PrevCommitProof.Round >= 1 {
+		// a sibling may commit the voting height first: this header's certificate then is a
+		// precommit message for a later round of the new voting height
+		pcp := b.PH.Header.PrevCommitProof
+		set := s.setFor(h - 1)
+		for hash, sigs := range pcp.Proofs {
+			ok, _ := validSigners(set, precommitBytes(h-1, pcp.Round, hash), sigs)
+			if atLeastOneThird(powerOf(set, ok), set.total()) {
+				out = append(out, "C09-A5")
+			}
+		}
 	}
 	if h == s.vv.Height+1 {
 		// a certificate for the round after the voting round is handled like a next-round precommit message
-		if pcp := b.PH.Header.PrevCommitProof; pcp.Round == s.vv.Round+1 && pcp.PubKeyHash == string(s.vv.ValidatorSet.PubKeyHash) {
+		// (inside a concurrent group a sibling may advance the round first: any later round)
+		if pcp := b.PH.Header.PrevCommitProof; (pcp.Round == s.vv.Round+1 || (s.inConc && pcp.Round > s.vv.Round+1)) && pcp.PubKeyHash == string(s.vv.ValidatorSet.PubKeyHash) {
 			set := s.setFor(s.vv.Height)
 			for hash, sigs := range pcp.Proofs {
 				ok, _ := validSigners(set, precommitBytes(s.vv.Height, pcp.Round, hash), sigs)
 				if atLeastOneThird(powerOf(set, ok), set.total()) {
-					return "C09-A5"
+					out = append(out, "C09-A5")
 				}
 			}
 		}
@@ -490,20 +506,20 @@ func (s *sim) phTrigger(b builtPH) string {
 			}
 		}
 		if !good {
-			return "C09-A4"
+			out = append(out, "C09-A4")
 		}
 		// the node commits the voting height and then looks at the header again from (h, round 0)
 		if r > 1 {
-			return "C09-A2"
+			out = append(out, "C09-A2")
 		}
-		return ""
+		return out
 	}
 	acceptable := b.ProposerOK && (b.Variant == phFresh || b.Variant == phAltNext || b.Variant == phForgedNext || b.Variant == phForgedCur ||
 		b.Variant == phForgedNextPowers || b.Variant == phForgedNextPubKeysOnly || b.Variant == phForgedCurPubKeysOnly || b.Variant == phWrongPrev || b.Variant == phAnnotated)
 	if h == s.vv.Height && (r == s.vv.Round || r == s.vv.Round+1) && h > s.w.init && acceptable {
 		switch b.PCP {
 		case pcpKeyIDLen1, pcpKeyIDLen0:
-			return "C09-A13"
+			out = append(out, "C09-A13")
 		}
 		// any block key of the embedded certificate that the committing view lacks
 		// (over-approximation: the certificate may still be rejected before the backfill);
@@ -513,17 +529,17 @@ func (s *sim) phTrigger(b builtPH) string {
 				break
 			}
 			if _, ok := s.cv.PrecommitProofs[key]; !ok {
-				return "C09-A6"
+				out = append(out, "C09-A6")
 			}
 		}
 	}
 	if h == s.cv.Height && r == s.cv.Round && h > s.w.init && acceptable {
 		// late proposal for the committing round: the mirror has no previous validator set for it
 		if b.PH.Header.PrevCommitProof.PubKeyHash == "" {
-			return "C09-A24"
+			out = append(out, "C09-A24")
 		}
 	}
-	return ""
+	return out
 }
 
 func (s *sim) execPH(op Op) {
@@ -733,41 +749,64 @@ func (b builtVote) authentic() (pairs int, perTarget map[string]map[int]bool, sh
 	return
 }
 
-func (s *sim) voteTrigger(b builtVote) string {
+// voteTrigger returns the listed finding whose trigger predicate holds for the vote message:
+// an open one (excluded by construction) if any, else the first that holds (fixed entries
+// exclude nothing; the name then only labels a process death in the write-ahead file).
+func (s *sim) voteTrigger(b builtVote) string { return pickOpen(s.voteTriggers(b)) }
+
+func pickOpen(ids []string) string {
+	for _, id := range ids {
+		if vk.Excluded(id) {
+			return id
+		}
+	}
+	if len(ids) > 0 {
+		return ids[0]
+	}
+	return ""
+}
+
+func (s *sim) voteTriggers(b builtVote) (out []string) {
 	h, r := b.H, b.R
 	if len(b.Proofs) == 0 {
-		return ""
+		return nil
 	}
 	if (h == s.cv.Height && r > s.cv.Round) || (s.cv.Height == 0 && h > 0 && h < s.vv.Height) {
-		return "C09-A3"
+		out = append(out, "C09-A3")
 	}
 	future := h > s.vv.Height || (h == s.vv.Height && r > s.vv.Round+1)
 	pairs, per, short := b.authentic()
 	if s.c10 && h > s.vv.Height && pairs > 0 {
 		// stored as FutureVerified, but a view shift into that height starts from an empty view
-		return "C10-F2"
+		out = append(out, "C10-F2")
 	}
 	if h > s.vv.Height && pairs > 0 && (s.c.Cfg.ValChange != 0 || s.altUsed || s.caseHasAlt()) {
 		// verified against the set its PubKeyHash names and stored for a height whose set may differ
-		return "C09-A26"
+		out = append(out, "C09-A26")
 	}
 	if future && short {
 		// reaches MergeSparse without the key-id filter (only when the pubkeys can be found)
-		return "C09-A13"
+		out = append(out, "C09-A13")
 	}
 	nextRound := r == s.vv.Round+1
 	if s.inConc {
 		// a sibling may advance the round first: any later round can become the next round
 		nextRound = r >= s.vv.Round+1
 	}
-	if b.Kind == 1 && h == s.vv.Height && nextRound && b.PKH == string(s.vv.ValidatorSet.PubKeyHash) {
+	cand := h == s.vv.Height && nextRound && b.PKH == string(s.vv.ValidatorSet.PubKeyHash)
+	if s.inConc && h == s.vv.Height+1 && r >= 1 && b.PKH == string(b.Set.VS.PubKeyHash) {
+		// a sibling (next-height header with a certificate) may commit the voting height first:
+		// the vote then meets the next-round view of the new voting height
+		cand = true
+	}
+	if b.Kind == 1 && cand {
 		for _, ok := range per {
 			if atLeastOneThird(powerOf(b.Set, ok), b.Set.total()) {
-				return "C09-A5"
+				out = append(out, "C09-A5")
 			}
 		}
 	}
-	return ""
+	return out
 }
 
 // fMaskFor sanitizes the configured candidate set F for the validator set of
@@ -1126,30 +1165,32 @@ func (s *sim) buildReplay(op Op) builtReplay {
 	return builtReplay{Header: hd, Proof: proof, Variant: variant, H: h, R: r}
 }
 
-func (s *sim) replayTrigger(b builtReplay) string {
+func (s *sim) replayTrigger(b builtReplay) string { return pickOpen(s.replayTriggers(b)) }
+
+func (s *sim) replayTriggers(b builtReplay) (out []string) {
 	if b.H != s.vv.Height {
-		return ""
+		return nil
 	}
 	if b.R < s.vv.Round {
-		return "C09-A9"
+		out = append(out, "C09-A9")
 	}
 	if b.R >= s.vv.Round+2 {
-		return "C09-A25"
+		out = append(out, "C09-A25")
 	}
 	if len(b.Header.ValidatorSet.Validators) == 0 {
 		for hash := range b.Proof.Proofs {
 			if _, ok := s.vv.PrecommitProofs[hash]; !ok || b.R != s.vv.Round {
-				return "C09-A10"
+				out = append(out, "C09-A10")
 			}
 		}
 	}
 	// header hash stored as a proposal for a round whose view is not the one the replay lands in
 	for _, k := range s.knownAt(b.H) {
 		if bytes.Equal(k.Header.Hash, b.Header.Hash) && (k.Round != b.R || (b.R == s.vv.Round && !s.inVotingView(string(k.Header.Hash)))) {
-			return "C09-A11"
+			out = append(out, "C09-A11")
 		}
 	}
-	return ""
+	return out
 }
 
 type replayOutcome struct {
@@ -1366,12 +1407,18 @@ func (s *sim) execConc(op Op) {
 		fin  func()
 	}
 	var ps []pending
+	if op.N == 1 {
+		s.label("race-pair")
+	}
 	s.inConc = true
 	defer func() { s.inConc = false }()
 	for _, sub := range op.Sub {
 		switch sub.K {
 		case "ph":
 			b := s.buildPH(sub)
+			if traceOn {
+				fmt.Fprintf(os.Stderr, "TRACE    conc ph h=%d r=%d pcpround=%d trigger=%q\n", b.H, b.R, b.PH.Header.PrevCommitProof.Round, s.phTrigger(b))
+			}
 			if id := s.phTrigger(b); id != "" && vk.Excluded(id) {
 				s.excluded[id]++
 				continue
@@ -1394,6 +1441,9 @@ func (s *sim) execConc(op Op) {
 			ps = append(ps, pending{cr: cr, pan: &pan, name: "HandleProposedHeader", fin: func() { s.lastPHRes = append(s.lastPHRes, res) }})
 		case "vote":
 			b := s.buildVote(sub)
+			if traceOn {
+				fmt.Fprintf(os.Stderr, "TRACE    conc vote h=%d r=%d kind=%d targets=%d trigger=%q\n", b.H, b.R, b.Kind, len(b.Proofs), s.voteTrigger(b))
+			}
 			if id := s.voteTrigger(b); id != "" && vk.Excluded(id) {
 				s.excluded[id]++
 				continue
